@@ -6,6 +6,7 @@ package detsim
 
 import (
 	"fmt"
+	"io/ioutil"
 	"path/filepath"
 	"sort"
 	"sync"
@@ -461,10 +462,20 @@ func (s *Sim) drain(n *Node) {
 	for _, m := range out {
 		s.Mon.OnEmit(n, m)
 		s.post(n.ID, m, nil, false)
+		if pm, ok := m.(*cs.ProposalMessage); ok && s.Mon.HeldCheck && p == nil {
+			// an honest proposer has processed its own proposal and parts by now: its encoding is the truth
+			if ps := n.CS.GetRoundState().ProposalBlockParts; ps != nil && ps.IsComplete() && ps.HasHeader(pm.Proposal.BlockPartsHeader) {
+				if bz, err := ioutil.ReadAll(ps.GetReader()); err == nil {
+					s.Mon.NoteProposalBytes(ps.Header(), bz)
+				}
+			}
+		}
 	}
 	if p != nil {
 		s.nodePanic(n, p, stack, "own message")
+		return
 	}
+	s.Mon.checkHeld(n)
 }
 
 func (s *Sim) nodePanic(n *Node, p interface{}, stack, what string) {
